@@ -315,7 +315,10 @@ func c02Config(c *engine.Ctx, name string, m ref.Msg, mi, si int, senderI bool) 
 	}
 	// every proper prefix
 	for l := 0; l < len(g1); l++ {
-		try(g1[:l], "prefix", func(cs *c02Case) { cs.ParseH = l%2 == 1 && l >= 28 })
+		try(g1[:l], "prefix", nil)
+		if l >= 28 {
+			try(g1[:l], "prefix", func(cs *c02Case) { cs.ParseH = true })
+		}
 	}
 	// extensions
 	for e := 1; e <= 32; e++ {
